@@ -1034,6 +1034,43 @@ func (lc *linCtx) edgeHyp(d, b *ssa.BasicBlock) []cons {
 	return nil
 }
 
+// diseqAt: integer disequalities x != y (as the form x - y, known to be non-zero) established by
+// the tests that dominate b through exactly one successor.
+func (lc *linCtx) diseqAt(b *ssa.BasicBlock) []lin {
+	var out []lin
+	for d := b.Idom(); d != nil; d = d.Idom() {
+		if len(d.Instrs) == 0 {
+			continue
+		}
+		ifi, ok := d.Instrs[len(d.Instrs)-1].(*ssa.If)
+		if !ok || d.Succs[0] == d.Succs[1] {
+			continue
+		}
+		t, f := d.Succs[0], d.Succs[1]
+		tOK := (len(t.Preds) == 1 && t.Dominates(b)) || onlyVia(d, t, b)
+		fOK := (len(f.Preds) == 1 && f.Dominates(b)) || onlyVia(d, f, b)
+		if tOK == fOK {
+			continue
+		}
+		cond, taken := ifi.Cond, tOK
+		for {
+			u, ok := cond.(*ssa.UnOp)
+			if !ok || u.Op != token.NOT {
+				break
+			}
+			cond, taken = u.X, !taken
+		}
+		bo, ok := cond.(*ssa.BinOp)
+		if !ok || !isIntType(bo.X.Type()) {
+			continue
+		}
+		if (bo.Op == token.EQL && !taken) || (bo.Op == token.NEQ && taken) {
+			out = append(out, lc.of(bo.X).sub(lc.of(bo.Y)))
+		}
+	}
+	return out
+}
+
 // onlyVia: every path from d to b passes through the edge d→s first, i.e. b
 // is not reachable from the other successor without re-entering d.
 func onlyVia(d, s, b *ssa.BasicBlock) bool {
@@ -1243,6 +1280,13 @@ func (lc *linCtx) factsFor(forms []lin, byName map[string]ssa.Value) []cons {
 		}
 		if strings.HasPrefix(a, "len(") || strings.HasPrefix(a, "N(") {
 			add = append(add, consLE(linConst(0), linAtom(a), a+" >= 0"))
+		}
+		if strings.HasPrefix(a, "len(") && strings.HasSuffix(a, ")") {
+			if v, ok := byName[a[4:len(a)-1]]; ok {
+				if p, ok := v.(*ssa.Phi); ok {
+					add = append(add, lc.countedFacts(p)...)
+				}
+			}
 		}
 		if sk, ok := lc.elemAtoms[a]; ok {
 			efs := lc.elemFacts[sk]
